@@ -531,6 +531,18 @@ def mon_c07(ctx, out):
 def mon_c08(ctx, out):
     tr = ctx.tr
     case = ctx.case
+    # premise of the balance clause: initial balances and loan amounts are on the precision grid
+    grid_premise = case.get("grid_premise", True)
+    for s, v in case["initial"].items():
+        p = case["sym_prec"].get(s)
+        if p is not None and not on_grid(F(Decimal(str(v))), p):
+            grid_premise = False
+    for acts in case["script"].values():
+        for a in acts:
+            if a[0] == "loan":
+                p = case["sym_prec"].get(a[1])
+                if p is not None and not on_grid(F(Decimal(str(a[2]))), p):
+                    grid_premise = False
     for k, st in enumerate(tr.steps):
         snap = st["snap"]
         # grids
@@ -546,7 +558,7 @@ def mon_c08(ctx, out):
                 out.append(("C08", "grid:fill-off-grid", k, f"order {o['idx']}: filled {o['filled']} quote {o['qfilled']} "
                                                             f"fee {fee} with precision {pp}"))
                 return
-        if case.get("grid_premise", True):
+        if grid_premise:
             for s in ctx.syms:
                 p = case["sym_prec"].get(s)
                 if p is None:
